@@ -134,3 +134,123 @@ func clipStr(s string, n int) string {
 	}
 	return s
 }
+
+// Seeded changes (/verif/seeded/<name>/patch.diff) are realistic property-breaking edits produced outside this
+// tree and confirmed by a failing demonstration. Those whose meta.json names this check under detected_by are
+// re-applied (through the overlay, nothing is written under /repo) on every thorough run; one of the named rules
+// must fire.
+type seedMeta struct {
+	Property   string `json:"property"`
+	DetectedBy []struct {
+		Check string   `json:"check"`
+		Rules []string `json:"rules"`
+	} `json:"detected_by"`
+}
+
+func runSeeds(id string, o runOpts) ([]mutantResult, bool) {
+	dirs, _ := filepath.Glob(filepath.Join(o.verif, "seeded", "*", "meta.json"))
+	tmp := filepath.Join(o.verif, ".work", "seed-"+id)
+	os.RemoveAll(tmp)
+	defer os.RemoveAll(tmp)
+	self, _ := os.Executable()
+	type job struct {
+		name  string
+		dir   string
+		rules []string
+	}
+	var jobs []job
+	for _, mf := range dirs {
+		b, err := os.ReadFile(mf)
+		if err != nil {
+			continue
+		}
+		var m seedMeta
+		if json.Unmarshal(b, &m) != nil {
+			continue
+		}
+		for _, d := range m.DetectedBy {
+			if d.Check == id {
+				jobs = append(jobs, job{filepath.Base(filepath.Dir(mf)), filepath.Dir(mf), d.Rules})
+			}
+		}
+	}
+	results := make([]mutantResult, len(jobs))
+	sem := make(chan struct{}, 4)
+	var wg sync.WaitGroup
+	for i, j := range jobs {
+		wg.Add(1)
+		go func(i int, j job) {
+			defer wg.Done()
+			sem <- struct{}{}
+			defer func() { <-sem }()
+			res := mutantResult{Name: "seeded/" + j.name, Expect: strings.Join(j.rules, "|")}
+			defer func() { results[i] = res }()
+			pb, err := os.ReadFile(filepath.Join(j.dir, "patch.diff"))
+			if err != nil {
+				res.Outcome, res.Detail = "skipped", err.Error()
+				return
+			}
+			work := filepath.Join(tmp, j.name)
+			var files []string
+			for _, ln := range strings.Split(string(pb), "\n") {
+				if strings.HasPrefix(ln, "+++ b/") {
+					files = append(files, strings.TrimSpace(strings.TrimPrefix(ln, "+++ b/")))
+				}
+			}
+			for _, f := range files {
+				os.MkdirAll(filepath.Dir(filepath.Join(work, f)), 0o755)
+				if sb, err := os.ReadFile(filepath.Join(o.repo, f)); err == nil {
+					os.WriteFile(filepath.Join(work, f), sb, 0o644)
+				}
+			}
+			pc := exec.Command("patch", "-p1", "-s", "-f", "-d", work, "-i", filepath.Join(j.dir, "patch.diff"))
+			if out, err := pc.CombinedOutput(); err != nil {
+				res.Outcome, res.Detail = "skipped", "the seeded patch no longer applies (the source changed): "+clipStr(string(out), 160)
+				return
+			}
+			out := filepath.Join(work, "result.json")
+			args := []string{"-repo", o.repo, "-verif", o.verif, "-no-evidence", "-json", out}
+			for _, f := range files {
+				args = append(args, "-overlay", filepath.Join(o.repo, f)+"="+filepath.Join(work, f))
+			}
+			args = append(args, "check", id, "quick")
+			cmd := exec.Command(self, args...)
+			cmd.Env = append(os.Environ(), "ZR_MUTANT=1")
+			cmb, _ := cmd.CombinedOutput()
+			jb, err := os.ReadFile(out)
+			if err != nil {
+				res.Outcome, res.Detail = "broken", "no result: "+clipStr(string(cmb), 300)
+				return
+			}
+			var obs []struct {
+				Rule, Construct, Status string
+			}
+			json.Unmarshal(jb, &obs)
+			hit := false
+			for _, ob := range obs {
+				if ob.Status == "VIOLATION" {
+					res.Fired = append(res.Fired, ob.Rule+" "+ob.Construct)
+					for _, want := range j.rules {
+						if ob.Rule == want {
+							hit = true
+						}
+					}
+				}
+			}
+			if hit {
+				res.Outcome = "detected"
+			} else {
+				res.Outcome, res.Detail = "MISSED", clipStr(string(cmb), 300)
+			}
+		}(i, j)
+	}
+	wg.Wait()
+	ok := true
+	for _, r := range results {
+		fmt.Printf("  %-47s expect %-8s %s %s\n", r.Name, r.Expect, r.Outcome, r.Detail)
+		if r.Outcome == "MISSED" || r.Outcome == "broken" {
+			ok = false
+		}
+	}
+	return results, ok
+}
